@@ -37,6 +37,35 @@ def header_witness(R):
     return w
 
 
+def encode_witness(R):
+    """c20_encode_then_decode_is_identity draws: type u8, length u32, flags u16"""
+    def w(r):
+        c = kanirun.Cursor(r.playback or [])
+        t = c.u() & 0xFF
+        ln = c.u()
+        fl = c.u() & 0xFFFF
+        if not (1 <= t <= 7) or ln > MAXP:
+            return {"confirmed": False, "detail": "decoded values outside the harness assumptions (type %d, len %d)" % (t, ln)}
+        case = {"fn": "header_encode", "type": t, "length": ln, "flags": fl}
+        want = list(b"COPA") + list(ln.to_bytes(4, "little")) + [t, 1] + list(fl.to_bytes(2, "little"))
+        res = native.run_both(case)
+        bad = {}
+        for p, v in res.items():
+            if "panic" in v or "crash" in v:
+                bad[p] = str(v)[:120]
+            elif v.get("encode") != want:
+                bad[p] = "encode = %s, wire format says %s" % (v.get("encode"), want)
+            elif not v.get("decode_ok") or v.get("decoded_length") != ln or v.get("decoded_flags") != fl:
+                bad[p] = "decode(encode(h)) != h: %s" % v
+        if bad:
+            case["expected"] = want
+            case["observed"] = res
+            return {"confirmed": True, "replay_path": R.save_replay("C20/header-encode", case), "key": "C20/FrameHeader::encode",
+                    "detail": "FrameHeader::new(type %d, length %d).encode(): native %s" % (t, ln, json.dumps(bad)[:240])}
+        return {"confirmed": False, "detail": "native encode/decode agree with the wire format for type %d, length %d, flags %d" % (t, ln, fl)}
+    return w
+
+
 def run_framing(R, tier, seed):
     from mirsmt.prove import Prover
     from mirsmt.env import Inconclusive
@@ -65,7 +94,7 @@ def run(R, tier, seed):
     fns = ["FrameHeader::decode", "FrameHeader::encode", "FrameHeader::validate", "FrameHeader::new", "MessageType::from_u8"]
     specs = [
         dict(h="header::c20_decode_accepts_exactly_valid_headers", bound="all 2^96 twelve-byte buffers", functions=fns, witness=header_witness(R)),
-        dict(h="header::c20_encode_then_decode_is_identity", bound="all valid header values (7 types x length <= 16 MiB x 2^16 flags)", functions=fns, witness=None),
+        dict(h="header::c20_encode_then_decode_is_identity", bound="all valid header values (7 types x length <= 16 MiB x 2^16 flags)", functions=fns, witness=encode_witness(R)),
         dict(h="header::c20_from_u8_total", bound="all 256 type bytes", functions=["MessageType::from_u8"], witness=None, covers_required=False),
         dict(h="header::c20_validate_matches_constraints", bound="all header field values", functions=["FrameHeader::validate"], witness=None, covers_required=False),
     ]
